@@ -160,6 +160,23 @@ def g_listing(c):
         raise Missing("parse_remote_meta_output: strip_prefix(\"./\")")
 
 
+def g_pushcmd(c):
+    # C09 / C04: the remote commands a push runs.  Shape facts, 1 = present in the current source, 0 = absent:
+    #   PUSH_FILE_VERIFIES_COUNT    `cat > T && [ "$(wc -c < T)" -eq SIZE ] && mv -f T D`   (transfer_file_to_remote)
+    #   PUSH_DELETE_VERIFIES_COUNT  `cat > "$t" && [ "$(wc -c < "$t")" -eq LEN ] && xargs -0 rm -f -- < "$t"` (apply_remote_deletes)
+    tr = strip_tests(read("src/bin/copia/transfer.rs"))
+    f = find(tr, r"pub async fn transfer_file_to_remote\(.*?\n\}", "transfer::transfer_file_to_remote", 0)
+    if "mv -f" not in f or "cat >" not in f:
+        raise Missing("transfer_file_to_remote: the remote `cat > T ... mv -f T D` command")
+    c["PUSH_FILE_VERIFIES_COUNT"] = 1 if re.search(r"cat > \$'\{tmp_escaped\}' && \[ \\\"\$\(wc -c < \$'\{tmp_escaped\}'\)\\\" -eq \{file_size\} \] && mv -f \$'\{tmp_escaped\}'", f) else 0
+    inc = strip_tests(read("src/bin/copia/incremental.rs"))
+    d = find(inc, r"async fn apply_remote_deletes\(.*?\n\}", "incremental::apply_remote_deletes", 0)
+    if "xargs -0 rm -f --" not in d:
+        raise Missing("apply_remote_deletes: the remote `xargs -0 rm -f --` command")
+    ok = re.search(r'cat > \\"\$t\\" && \[ \\"\$\(wc -c < \\"\$t\\"\)\\" -eq \{\} \] && xargs -0 rm -f -- < \\"\$t\\"', d) and re.search(r"list\.len\(\)\s*\)", d)
+    c["PUSH_DELETE_VERIFIES_COUNT"] = 1 if ok else 0
+
+
 # group -> (function, prefixes of the constants it defines).  A group that cannot be translated keeps the values of the
 # previous Constants.v (so the development still builds) and is reported in the status file; a check fails closed only
 # when the model files its property depends on mention a constant of a failed group (vlib.translator_problems).
@@ -172,6 +189,7 @@ GROUPS = [
     ("clibs", g_clibs, ("BS_MIN_CLI", "BS_MAX_CLI")),
     ("glob", g_glob, ("GLOB_", "PATH_SEP")),
     ("listing", g_listing, ("LISTING_",)),
+    ("pushcmd", g_pushcmd, ("PUSH_",)),
 ]
 
 
